@@ -20,7 +20,10 @@ BUILD = os.path.join(VERIF, ".build")
 TARGET = os.environ.get("VERIF_TARGET", os.path.join(VERIF, ".target"))
 SEAM = os.path.join(BUILD, "libsimfs.so")
 FCLONES = os.path.join(TARGET, "debug", "fclones")
-SHM = "/dev/shm/fclones-sim"
+# no regex metacharacters (such as "-") in the simulated hosts' paths: fclones turns the working
+# directory into a literal pattern prefix, and an escaped character in it cuts that prefix short,
+# which would mask every bug in prefix-based directory pruning
+SHM = "/dev/shm/fclonessim"
 GUARD = "--cfg fclones_verif"
 
 T0_NS = 1_700_000_000 * 10**9  # simulated epoch of every world: 2023-11-14 22:13:20 UTC
@@ -201,7 +204,7 @@ class RunDir:
 
     def __init__(self, tag="r"):
         _run_counter[0] += 1
-        self.base = os.path.join(SHM, "%s-%d-%d" % (tag, os.getpid(), _run_counter[0]))
+        self.base = os.path.join(SHM, "%s_%d_%d" % (tag, os.getpid(), _run_counter[0]))
         if os.path.exists(self.base):
             shutil.rmtree(self.base, ignore_errors=True)
         self.world = os.path.join(self.base, "w")
